@@ -99,6 +99,17 @@ theorem lookahead_skips_comments (wanted : Char) (fuel : Nat) (cs : List Char) (
   rw [lookaheadScan]
   simp
 
+/-- **the look-ahead cut steps over a string literal as a whole**: no character inside the quotes is taken for the
+    separator, a bracket or a comment sign, and the literal counts as a token seen (finding F63, repaired) -/
+theorem lookahead_skips_strings (wanted : Char) (fuel : Nat) (cs : List Char) (idx : Nat) (seen : Bool) (paren brace : Nat)
+    (h : (decideNextToken ('"' :: cs)).1 = .String) :
+    lookaheadScan wanted (fuel + 1) ('"' :: cs) idx seen paren brace =
+      (let n := (decideNextToken ('"' :: cs)).2
+       let n := if n == 0 then 1 else n
+       lookaheadScan wanted fuel (('"' :: cs).drop n) (idx + n) true paren brace) := by
+  rw [lookaheadScan]
+  simp [h]
+
 /-- **the blank a pattern spells is satisfied by a comment too** (`ld;* c *;a` for the pattern `ld a`) -/
 theorem pattern_blank_accepts_a_comment (defs : List Ruledef) (fuel : Nat) (rule : Rule) (rest : List RPart) (w : MW)
     (consumeAll : Bool) (m : IMatch) (h : (tokenAt w.vis).kind = .Comment) :
